@@ -44,6 +44,12 @@ Next == /\ ~done
                   Emit([op |-> "iv.approx", mode |-> "ulps",
                         a |-> Iv(ka, LoV(0), HiV(0)), b |-> Iv(kb, LoV(d1), HiV(d2)),
                         eps |-> [n |-> n, p |-> -11], max_ulps |-> u])
+             \* a negative epsilon: nothing is approximately equal to anything, not even an interval to itself
+             /\ (d1 = 0 /\ d2 = 0) =>
+                  /\ Emit([op |-> "iv.approx", mode |-> "abs", a |-> Iv(ka, LoV(0), HiV(0)), b |-> Iv(kb, LoV(0), HiV(0)),
+                           eps |-> [n |-> -1, p |-> -11]])
+                  /\ Emit([op |-> "iv.approx", mode |-> "ulps", a |-> Iv(ka, LoV(0), HiV(0)), b |-> Iv(kb, LoV(0), HiV(0)),
+                           eps |-> [n |-> -1, p |-> -11], max_ulps |-> 0])
              /\ \A u \in 0..3 :
                   Emit([op |-> "iv.approx", mode |-> "ulps",
                         a |-> Iv(ka, LoU(0), HiU(0)), b |-> Iv(kb, LoU(d1), HiU(d2)),
